@@ -815,6 +815,45 @@ func (fx *FnExec) evalPure(st *State, v ssa.Value, d int) (Val, bool) {
 	return x, ok
 }
 
+func isRangeIndexPhi(ph *ssa.Phi) bool {
+	if len(ph.Edges) != 2 {
+		return false
+	}
+	okInit, okStep := false, false
+	for _, e := range ph.Edges {
+		if c, ok := e.(*ssa.Const); ok && c.Value != nil && c.Value.ExactString() == "-1" {
+			okInit = true
+		}
+		if b, ok := e.(*ssa.BinOp); ok && b.Op == token.ADD && b.X == ssa.Value(ph) {
+			if c, ok := b.Y.(*ssa.Const); ok && c.Value != nil && c.Value.ExactString() == "1" {
+				okStep = true
+			}
+		}
+	}
+	return okInit && okStep
+}
+
+// rangeBound returns the loop-invariant bound of a range-over-slice loop: header is
+//   t1 = phi+1; t2 = t1 < bound; if t2 ...
+func rangeBound(lp *Loop, ph *ssa.Phi) ssa.Value {
+	var inc *ssa.BinOp
+	for _, in := range lp.header.Instrs {
+		if b, ok := in.(*ssa.BinOp); ok {
+			if b.Op == token.ADD && b.X == ssa.Value(ph) {
+				inc = b
+			}
+			if inc != nil && b.Op == token.LSS && b.X == ssa.Value(inc) {
+				if bi, ok := b.Y.(ssa.Instruction); ok && !lp.blocks[bi.Block()] {
+					if iff, ok := lp.header.Instrs[len(lp.header.Instrs)-1].(*ssa.If); ok && iff.Cond == ssa.Value(b) {
+						return b.Y
+					}
+				}
+			}
+		}
+	}
+	return nil
+}
+
 // havocLoop forgets everything the loop may change.
 func (fx *FnExec) havocLoop(st *State, lp *Loop) {
 	eng := fx.eng
@@ -832,6 +871,16 @@ func (fx *FnExec) havocLoop(st *State, lp *Loop) {
 		nv := Val{T: n, S: srt, GT: ph.Type(), M: old.M}
 		st.assume(eng.sorts.typeInv(ph.Type(), n))
 		st.vals[ph] = nv
+		if ph.Comment == "rangeindex" && isRangeIndexPhi(ph) {
+			// compiler-generated index of a range-over-slice loop: starts at -1, incremented by 1
+			// while index+1 < bound, where bound is computed before the loop
+			st.assume("(>= " + n + " (- 1))")
+			if bnd := rangeBound(lp, ph); bnd != nil {
+				if bv, ok := st.vals[bnd]; ok {
+					st.assume("(or (<= (+ " + n + " 1) " + bv.T + ") (< " + bv.T + " 0))")
+				}
+			}
+		}
 	}
 	touch := map[string]bool{}
 	for b := range lp.blocks {
@@ -936,6 +985,21 @@ func (fx *FnExec) storeAt(st *State, l *Loc, v Val) {
 		a := app("sl_arr", l.Slice.T)
 		eng.heapSet(st, comp, store(h, a, store(sel(h, a), "(+ "+app("sl_off", l.Slice.T)+" "+l.Idx+")", v.T)))
 	}
+}
+
+// zeroArray returns a term for an array (Int -> elem) filled with the zero value.
+func (fx *FnExec) zeroArray(st *State, et types.Type) string {
+	eng := fx.eng
+	es := eng.sorts.sortOf(et)
+	z := eng.sorts.zero(et)
+	if !strings.Contains(z, "eps") {
+		return "((as const (Array Int " + es + ")) " + z + ")"
+	}
+	// cvc5 accepts only values in constant arrays: use a quantified definition instead
+	n := eng.fresh(st, "zeros", "(Array Int "+es+")")
+	i := eng.freshName("i")
+	st.assume("(forall ((" + i + " Int)) (! (= (select " + n + " " + i + ") " + z + ") :pattern ((select " + n + " " + i + "))))")
+	return n
 }
 
 func (fx *FnExec) newRef(st *State) string {
@@ -1122,8 +1186,7 @@ func (fx *FnExec) step(st *State, in ssa.Instruction) {
 		if at, isArr := et.Underlying().(*types.Array); isArr {
 			comp := eng.regSlice(at.Elem())
 			h := eng.heapGet(st, comp)
-			es := eng.sorts.sortOf(at.Elem())
-			eng.heapSet(st, comp, store(h, ref, "((as const (Array Int "+es+")) "+eng.sorts.zero(at.Elem())+")"))
+			eng.heapSet(st, comp, store(h, ref, fx.zeroArray(st, at.Elem())))
 			st.vals[in] = Val{T: ref, S: SInt, GT: in.Type()}
 			return
 		}
@@ -1246,8 +1309,7 @@ func (fx *FnExec) step(st *State, in ssa.Instruction) {
 		et := in.Type().Underlying().(*types.Slice).Elem()
 		ref := fx.newRef(st)
 		comp := eng.regSlice(et)
-		es := eng.sorts.sortOf(et)
-		eng.heapSet(st, comp, store(eng.heapGet(st, comp), ref, "((as const (Array Int "+es+")) "+eng.sorts.zero(et)+")"))
+		eng.heapSet(st, comp, store(eng.heapGet(st, comp), ref, fx.zeroArray(st, et)))
 		st.vals[in] = Val{T: fmt.Sprintf("(mk_Slice %s 0 %s %s)", ref, ln.T, cp.T), S: SSlice, GT: in.Type()}
 	case *ssa.MakeMap:
 		mt := in.Type().Underlying().(*types.Map)
